@@ -20,6 +20,17 @@ through GRAPH attributes and members of GRAPHS attributes, reference and plain a
 analyze_implicit_usage on every graph and on the Function object), `necessity` (the counterexamples of the
 C18_*_needs_* theorems built on the real code: extract must be loud where a hypothesis fails).
 
+Follow-up round: the model's pipeline is `extractO` (clone stage `cloneGO` with the ownership checks of the
+clone's Graph(...) constructors; `extractOF` = the same after the proposed fix D460, chosen by probing the real
+code once: request field `d460`).  Streams `ownership` (views whose boundary contains, by object, values that a
+nested graph lists or defines) and `captured` (regions of a nested graph that reads enclosing values directly,
+the captured values given by object / by name: D460).  Every cut that passes the argument checks carries the
+instance of C18_extract_succeeds_iff / C18_extract_owned / C18_own_pass (decidable hypotheses `regionHypB`,
+`ownStaticB`, `nrGB`; both sides of the equivalence), compared with the model's AND the real outcome, and the
+instance of C18_clone_stage_C13_exact: the driver lays the view handed to the clone stage out as a heap of C13's
+model and runs C13's scope walker on it - it must return / raise a clear error exactly when `cloneGO` does
+(histogram clone_stage_vs_C13_walker).
+
 Property oracle (independent of the model, on the real objects): a brute-force least fixed point from a
 structural reading (no back pointers) gives the needed values/nodes/initializers and whether a required value
 is uncovered; the result must have exactly those nodes in the original order, exactly those initializers,
@@ -82,6 +93,12 @@ THEOREMS = [
     P + "C18_extract_owned",
     P + "C18_clone_stage_C13",
     P + "C18_extract_clone_C13",
+    P + "C18_source_of_C01_nested",
+    P + "C18_captures_needs_scoped",
+    P + "C18_extract_D460",
+    P + "C18_own_pass",
+    P + "C18_extractO_succeeds_iff",
+    P + "C18_clone_stage_C13_exact",
 ]
 ASSUMPTIONS = [
     "Python sets are modelled as lists (iteration order of a set is hash order in Python, list order in the "
@@ -105,8 +122,30 @@ ASSUMPTIONS = [
     "values); tensors and plain immutable Attr objects are shared by design",
     "a GraphView passed as graph-like may list its nodes in any order, a subset of them, or a node several "
     "times (node_index is a dict comprehension: the last position counts; C18_order_view / C18_order_source); "
-    "boundary values given by object to a view are not values defined inside a nested graph (the ownership "
-    "check of the clone's Graph constructor is kernel behaviour and is not modelled)",
+    "boundary values given by object to a view may be values that a nested graph lists or defines: the ownership "
+    "checks of the clone's Graph(...) constructors are modelled (cloneGO: generation of the clone a key maps to, "
+    "clones owned by finished graphs; Err.cloneOwned) and compared on every run (stream ownership); the property "
+    "oracle treats such cuts as correspondence only (a value of a nested scope is not a boundary of the region)",
+    "the theorems about a returned view are stated for `extract` (pipeline without the constructor checks); "
+    "C18_extract_owned transfers them to `extractO`, the pipeline the driver runs and the code implements "
+    "(extractO returns => extract returns the same view; extractO returns iff extract returns and the ownership "
+    "checks pass; other errors coincide); C18_own_pass gives a static sufficient condition (ownStaticB, share "
+    "hyp_own_pass) and C18_extractO_succeeds_iff the outcome table of extractO",
+    "C18_clone_stage_C13 / C18_extract_clone_C13 relate cloneGO to C13's scope walker and heap-level cloner for "
+    "every C13 heap that represents the view (RepG), is regular (RegG) and has no re-bound node output (nrG, "
+    "decidable: share hyp_clone_stage_C13; false on the D153 shapes where C13's walker makes no claim); the "
+    "representation relation is Lean-only (like ofKernel): C13's own correspondence ties its heap model and "
+    "walker to the real cloner, C18's ties cloneGO to the outcome of the real extract",
+    "D460 (known finding): a boundary INPUT given by object that a node of the target graph reads directly from an "
+    "enclosing graph is refused ('does not belong') although it covers a required value and the same value by "
+    "name is accepted; the oracle reports it (extract:sub:byobject-captured-input-rejected); the model follows "
+    "the code under test (extractO before, extractOF after the fix; C18_extract_D460 relates them)",
+    "C18_source_of_C01_nested: for C01 kernel worlds with the graphs their node attributes hold (ofKernelN, "
+    "Lean-only embedding; back pointer = the Value.graph property) consistent back pointers and closedness of "
+    "every unfolded tree follow from Kernel.WF + KClosed (every graph output defined at the top level of its "
+    "graph; necessary: a nested graph returning an outer value owns it - observed on the real objects in stream "
+    "necessity); scoping of uses by owner is not implied and is necessary (C18_captures_needs_scoped, shape "
+    "reader-above-owner rebuilt on the real code: the real analysis reports the non-free value)",
     "by-name resolution is modelled and proved (C18_by_name_resolves: lookups of create_value_mapping(graph, "
     "include_subgraphs=False) = first pair in the order initializer dict, graph inputs, node inputs then "
     "outputs in node order; the unique-names clause has the decidable hypothesis namesUniqueB, share in "
@@ -119,13 +158,16 @@ ASSUMPTIONS = [
     "hypothesis are necessary (C18_eval_needs_sorted, C18_eval_needs_closed, C18_extract_eval_needs_scope) and "
     "their counterexamples are rebuilt on the real code on every run (stream necessity: extract raises for the "
     "first two shapes and for a nested graph that is itself unsorted; it returns for the ill-scoped third one, "
-    "whose source is not valid ONNX).  Still plain hypotheses: consistent .graph back pointers on nested graphs "
-    "(cannot be broken through the public API; no necessity theorem) and scoping of uses by owner for "
-    "C18_captures_sound / C18_captures_exact (no necessity theorem; an ill-scoped model makes the real analysis "
-    "report a value defined in a sibling graph)",
-    "not proved (differential only): that a properly bounded, well scoped, sorted region makes the clone "
-    "stage succeed (converse of C18_raises_of_uncovered); the Err.initNoName branch is unreachable through the "
-    "public API (an initializer cannot be nameless since D07) and is never exercised",
+    "whose source is not valid ONNX).  Follow-up round: consistent .graph back pointers on nested graphs are "
+    "derived from C01 + closedness (C18_source_of_C01_nested) and scoping of uses by owner is shown necessary "
+    "(C18_captures_needs_scoped); distinct identities of nested graphs (uniqueGidsB) and acyclic nesting stay "
+    "plain decidable hypotheses",
+    "the converse of C18_raises_of_uncovered is proved (C18_clone_succeeds, C18_extract_succeeds_iff: under "
+    "RegionHyp - sorted single-assignment source, covered captures, scoping of required values, named and "
+    "distinctly named initializers; share hyp_succeeds_iff - extract returns exactly when the arguments pass, "
+    "the first output has a graph, every required value is covered and every required node is listed); the "
+    "Err.initNoName branch is unreachable through the public API (an initializer cannot be nameless since D07) "
+    "and is never exercised",
     "ReferenceEvaluator and onnx.checker are external oracles; evaluation is compared only on the evaluable op "
     "set (Add Sub Mul Neg Abs Identity Clip Greater Less Not Where If + a two-output custom op), with two input "
     "assignments per model and with perturbed values at boundary inputs cut in the middle (expected values from "
@@ -525,6 +567,34 @@ def bits(a) -> str:
 # --------------------------------------------------------------------------- one model x many cuts
 
 
+_D460 = None
+
+
+def d460_fixed() -> bool:
+    """does the code under test accept a by-object boundary INPUT that a node of the target graph reads directly
+    from an enclosing graph (proposed fix D460)?  Probed once on the real code; the model driver runs the matching
+    pipeline (`extractOF` when fixed, `extractO` otherwise), so applying the fix needs no change of the model."""
+    global _D460
+    if _D460 is None:
+        ir = _ir()
+        from onnx_ir.convenience import extract
+
+        def V(n):
+            return ir.Value(name=n, type=ir.TensorType(ir.DataType.FLOAT), shape=ir.Shape([1]))
+
+        x, i, y, z = V("x"), V("i"), V("y"), V("z")
+        m = ir.Node("", "Add", [x, i], outputs=[y], name="m")
+        g1 = ir.Graph([i], [y], nodes=[m], name="g1", opset_imports={"": 18})
+        n0 = ir.Node("verif", "Op", [x], [ir.AttrGraph("body", g1)], outputs=[z], name="n0")
+        ir.Graph([x], [z], nodes=[n0], name="g0", opset_imports={"": 18, "verif": 1})
+        try:
+            extract(g1, [x, i], [y])
+            _D460 = True
+        except ValueError:
+            _D460 = False
+    return _D460
+
+
 def resolve_real(objs, arg):
     return arg if isinstance(arg, str) else objs["vals"][arg]
 
@@ -662,7 +732,7 @@ def check_model(part, spec: dict, cuts: list, tag: str):
     ir = obs.ir
     world = obs.world()
     tj = obs.target_j()
-    req = {"m": "extract.runmany", **world, "target": tj, "cuts": [[i, o] for i, o in cuts]}
+    req = {"m": "extract.runmany", **world, "target": tj, "cuts": [[i, o] for i, o in cuts], "d460": d460_fixed()}
     outs_model = (yield [req])[0]
     if "err" in outs_model:
         part.disagree("model driver rejected the request", {"spec": spec}, outs_model, None)
@@ -721,6 +791,19 @@ def check_model(part, spec: dict, cuts: list, tag: str):
                 owned = mres["r"] == "raised" and mres.get("kind", "").endswith("cloneOwned")
                 if not owned and (ires["r"] == "ok") != rhs:
                     part.disagree("C18_extract_succeeds_iff: the real extract returns / raises against the covered-and-needed verdict", case, iff, ires)
+            if iff.get("own") is not None:
+                # hypothesis of C18_own_pass (static: no value listed by two graphs of the view's tree) and its instance
+                part.count("hyp_own_pass:" + ("all" if iff["own"] else "missing"))
+                if iff["own"] and mres["r"] != "ok":
+                    part.disagree("C18_own_pass fails on the model (static hypothesis holds, extractO raised)", case, mres, iff)
+                if iff["own"] and iff["hyp"] and ires["r"] != "ok":
+                    part.disagree("C18_extractO_succeeds_iff: hypotheses hold, region covered, the real extract raised", case, iff, ires)
+            if iff.get("c13") is not None:
+                # instance of C18_clone_stage_C13_exact: the view handed to the clone stage as a heap of C13's model
+                # (built by the driver), C13's scope walker against cloneGO - both returning or both raising
+                part.count("clone_stage_vs_C13_walker:" + iff["c13"])
+                if iff["c13"].startswith("disagree"):
+                    part.disagree("C18_clone_stage_C13_exact: cloneGO and C13's scope walker differ on the view as a heap", case, mres, iff)
             if mres["r"] == "ok" and not iff["plain"]:
                 part.disagree("C18_extract_owned fails on the model (extractO returned, extract raised)", case, mres, iff)
         if mres["r"] == "ok" and "nr" in mres:
@@ -1343,6 +1426,18 @@ NECESSITY = [
                           {"n": 1, "op": "Add", "dom": "", "ins": [1, 3], "outs": [4], "bodies": []}]}]]}]},
               "target": {"kind": "sub", "gid": 1}, "sorted": True, "wellformed": False},
      "ins": [], "outs": [4]},
+    # C18_captures_needs_scoped: node 1 (in graph 1) reads the INPUT `c` of graph 2, which is nested in node 1 itself:
+    # the real analysis must report `c` in the entry of graph 1 although graph 1 defines it below (model = code)
+    {"tag": "reader-above-owner", "expect": "any", "theorem": "C18_captures_needs_scoped", "aux": True,
+     "analyze": {"graph": 1, "value": 1, "free": False},
+     "spec": {"vals": [_v("x"), _v("c"), _v("d"), _v("z")],
+              "root": {"g": 0, "inputs": [0], "inits": [], "outputs": [3], "nodes": [
+                  {"n": 0, "op": "Op", "dom": "verif", "ins": [0], "outs": [3], "bodies": [
+                      ["g", "body", {"g": 1, "inputs": [], "inits": [], "outputs": [2], "nodes": [
+                          {"n": 1, "op": "Op", "dom": "verif", "ins": [1], "outs": [2], "bodies": [
+                              ["g", "body", {"g": 2, "inputs": [1], "inits": [], "outputs": [1], "nodes": []}]]}]}]]}]},
+              "target": {"kind": "graph"}, "sorted": True, "wellformed": False},
+     "ins": [0], "outs": [3]},
     {"tag": "view-repeats-producer-after-consumer", "expect": "raised", "theorem": "C18_order_source",
      "spec": {"vals": [_v("x"), _v("a"), _v("b")],
               "root": {"g": 0, "inputs": [0], "inits": [], "outputs": [2], "nodes": [
@@ -1365,6 +1460,29 @@ def check_necessity(part, item: dict):
         part.fail(f"extract:necessity:{item['tag']}:silently-returned",
                   f"a hypothesis of {item['theorem']} fails on this source and extract returned a graph instead of raising",
                   {"spec": spec, "ins": ins, "outs": outs, "impl": ires})
+    an = item.get("analyze")
+    if an:
+        # the shape of C18_captures_needs_scoped on the real analysis: the value is reported for the graph
+        # although it is no free variable of it (brute-force structural reading)
+        from onnx_ir.analysis import analyze_implicit_usage
+
+        obs = Obs(objs)
+        brute = Brute(obs)
+        usage = analyze_implicit_usage(objs["root"])
+        g = objs["graphs"][an["graph"]]
+        val = objs["vals"][an["value"]]
+        reported = any(v is val for v in usage.get(g, ()))
+        free = any(v is val for v in brute.used_inside(g)) and id(val) not in brute.defined_inside(g)
+        part.count(f"necessity:{item['tag']}:reported={reported}:free={free}")
+        if reported and not free:
+            part.count("necessity_scoped_hypothesis_needed_on_real_code")
+        if free != an["free"]:
+            part.disagree("necessity shape: the structural reading differs from the theorem's", {"item": item["tag"]}, an, {"free": free})
+    # the hypothesis KClosed of C18_source_of_C01_nested on the real objects: a nested graph returning an outer
+    # value makes Value.graph name the NESTED graph (its output list owns the value)
+    if item["tag"] == "nested-output-is-outer-value":
+        c = objs["vals"][1]
+        part.count("necessity:kclosed:outer-value-owned-by-nested-graph=" + str(c.graph is objs["graphs"][1]))
     yield from check_model(part, spec, [(ins, outs)], "necessity")
 
 
@@ -1977,6 +2095,8 @@ def make_items(ctx: Ctx) -> list:
     # (F) the counterexamples of the necessity theorems, on the real code
     for it in NECESSITY:
         items.append(("necessity", it))
+        if it.get("aux"):
+            items.append(("aux", (it["spec"], 0.5)))
     return items
 
 
